@@ -2001,9 +2001,10 @@ class ReferenceManager:
                 refs.remove(prev_ref)
             if not refs:    # ref is empty
                 del self._valid_to_refs[prev_valid]
-                spec = self._manager.get_spec_from_value(self._model.interface, prev_val)
-                if spec:
-                    self._manager.del_spec(spec)
+                if value is not prev_val:
+                    spec = self._manager.get_spec_from_value(self._model.interface, prev_val)
+                    if spec:
+                        self._manager.del_spec(spec)
 
         if not isinstance(value, Interface):
             self._valid_to_refs.setdefault(id(value), []).append(refdict[name])
